@@ -6,6 +6,7 @@ import (
 	"context"
 	"slices"
 
+	"github.com/coreos/go-oidc/v3/oidc"
 	v1 "github.com/fatedier/frp/pkg/config/v1"
 	"github.com/fatedier/frp/pkg/msg"
 	"github.com/fatedier/frp/pkg/util/util"
@@ -136,5 +137,50 @@ func verif_Setter_SetLogin(s Setter, m *msg.Login) {
 	err := s.SetLogin(m)
 	if t, ok := s.(*TokenAuthSetterVerifier); ok && err == nil {
 		verif.Ensures(m.PrivilegeKey == util.GetAuthKey(t.token, m.Timestamp), "login_carries_the_keyed_digest")
+	}
+}
+
+// NewAuthVerifier (C04 "every control message type the server has scoped is
+// verified"): the verifier the server works with has exactly the configured
+// additional scopes - each scope the configuration lists is on, no other - and
+// the configured credential (the token, or the OIDC verifier built from the
+// configured OIDC section).
+//
+//verif:contract ~/pkg/auth.NewAuthVerifier
+//verif:props C04 C14
+//verif:kinds post,pre
+func verif_NewAuthVerifier(cfg v1.AuthServerConfig, q v1.AuthScope) {
+	verif.ResetEvents()
+	v := NewAuthVerifier(cfg)
+	switch cfg.Method {
+	case v1.AuthMethodToken:
+		t, ok := v.(*TokenAuthSetterVerifier)
+		verif.Ensures(ok && t.token == cfg.Token, "token_verifier_with_the_configured_token")
+		verif.Ensures(VerifScopeOn(v, q) == slices.Contains(cfg.AdditionalScopes, q), "exactly_the_configured_scopes_are_verified")
+	case v1.AuthMethodOIDC:
+		t, ok := v.(*OidcAuthConsumer)
+		verif.Ensures(ok && verif.CalledWith("auth.NewTokenVerifier", 0, cfg.OIDC) && t.verifier == verif.Ret[TokenVerifier]("auth.NewTokenVerifier", 0), "oidc_verifier_built_from_the_configured_section")
+		verif.Ensures(VerifScopeOn(v, q) == slices.Contains(cfg.AdditionalScopes, q), "exactly_the_configured_scopes_are_verified")
+	}
+}
+
+// NewTokenVerifier: each check of the OIDC library is skipped exactly when the
+// configuration's own switch for that check says so (expiry and issuer are
+// separate switches), and the audience is checked iff one is configured.
+// (Provider.Verifier only keeps the configuration it is given: trusted.)
+//
+//verif:pure-ext (*github.com/coreos/go-oidc/v3/oidc.Provider).Verifier
+//verif:contract ~/pkg/auth.NewTokenVerifier
+//verif:props C04
+//verif:kinds post
+func verif_NewTokenVerifier(cfg v1.AuthOIDCServerConfig) {
+	verif.ResetEvents()
+	_ = NewTokenVerifier(cfg)
+	const ev = "Provider).Verifier"
+	if verif.Called(ev) {
+		conf := verif.NthArg[*oidc.Config](ev, 0, 1)
+		verif.Ensures(conf.SkipExpiryCheck == cfg.SkipExpiryCheck, "expiry_check_skipped_iff_its_own_switch_is_set")
+		verif.Ensures(conf.SkipIssuerCheck == cfg.SkipIssuerCheck, "issuer_check_skipped_iff_its_own_switch_is_set")
+		verif.Ensures(conf.ClientID == cfg.Audience && conf.SkipClientIDCheck == (cfg.Audience == ""), "audience_checked_iff_configured")
 	}
 }
